@@ -3,6 +3,7 @@
 use star_frame::account_set::sysvar::{InstructionsSysvar, SlotHashesSysvar, SysvarId};
 use star_frame::account_set::system_account::SystemAccount;
 use star_frame::account_set::TryFromAccounts as _;
+use star_frame::account_set::{AccountSetDecode, AccountSetValidate};
 use star_frame::account_set::modifiers::{MaybeMut, MaybeSigner};
 use star_frame::pinocchio::sysvars::rent::Rent;
 use star_frame::prelude::*;
@@ -101,6 +102,77 @@ fam! {
     "SA M b S" => Signer<Box<Mut<SystemAccount>>>,
 }
 
+// ---- Vec<T> of single-account sets: decode n accounts, validate with one of the four argument forms ----
+type VRunner = fn(&[AccountInfo], &mut Context, i128, i128) -> Result<()>;
+fn vecrun<T>(accs: &[AccountInfo], ctx: &mut Context, form: i128, k: i128) -> Result<()>
+where
+    T: for<'a> AccountSetDecode<'a, ()> + AccountSetValidate<()>,
+{
+    let mut s = accs;
+    let mut v = <Vec<T> as AccountSetDecode<usize>>::decode_accounts(&mut s, accs.len(), ctx)?;
+    match form {
+        0 => v.validate_accounts((), ctx),
+        1 => v.validate_accounts(((),), ctx),
+        2 => v.validate_accounts(vec![(); k as usize], ctx),
+        _ => match k {
+            0 => v.validate_accounts([(); 0], ctx),
+            1 => v.validate_accounts([(); 1], ctx),
+            2 => v.validate_accounts([(); 2], ctx),
+            3 => v.validate_accounts([(); 3], ctx),
+            4 => v.validate_accounts([(); 4], ctx),
+            5 => v.validate_accounts([(); 5], ctx),
+            _ => v.validate_accounts([(); 6], ctx),
+        },
+    }
+}
+macro_rules! vfam {
+    ($($sig:expr => $t:ty),* $(,)?) => {
+        fn vfamily() -> Vec<(&'static str, VRunner)> {
+            vec![ $( ($sig, vecrun::<$t> as VRunner) ),* ]
+        }
+    };
+}
+vfam! {
+    "" => AccountInfo,
+    "S" => Signer<AccountInfo>,
+    "M" => Mut<AccountInfo>,
+    "S M" => Mut<Signer<AccountInfo>>,
+    "M S" => Signer<Mut<AccountInfo>>,
+    "s1 m0" => MaybeMut<false, MaybeSigner<true, AccountInfo>>,
+    "SA" => SystemAccount,
+    "SA M" => Mut<SystemAccount>,
+    "SA M S" => Signer<Mut<SystemAccount>>,
+    "S b" => Box<Signer<AccountInfo>>,
+}
+
+/// case: prog(32) form k n  n * (key(32) owner(32) signer writable)  layers
+fn run_vec(c: &[i128]) -> Vec<i128> {
+    let b32 = |s: &[i128]| -> [u8; 32] { s.iter().map(|x| *x as u8).collect::<Vec<_>>().try_into().unwrap() };
+    let prog = b32(&c[0..32]);
+    let (form, k, n) = (c[32], c[33], c[34] as usize);
+    let mut i = 35;
+    let mut natives = vec![];
+    for _ in 0..n {
+        let key = b32(&c[i..i + 32]);
+        let owner = b32(&c[i + 32..i + 64]);
+        let (sg, wr) = (c[i + 64] != 0, c[i + 65] != 0);
+        i += 66;
+        natives.push(NativeAccount::new(key, owner, 1, &[], sg, wr, false));
+    }
+    let layers = &c[i..];
+    let Some(sig) = sig_of(layers) else { return vec![-3] };
+    let fam = vfamily();
+    let Some((_, f)) = fam.iter().find(|(s, _)| *s == sig) else { return vec![-4] };
+    let accs: Vec<AccountInfo> = natives.iter().map(|n| n.info()).collect();
+    let prog_static: &'static Pubkey = Box::leak(Box::new(Pubkey::new_from_array(prog)));
+    let mut ctx = Context::new(prog_static);
+    match guarded(|| f(&accs, &mut ctx, form, k)) {
+        Ok(Ok(())) => vec![0],
+        Ok(Err(e)) => vec![1, err_code(e) as i128],
+        Err(()) => vec![2],
+    }
+}
+
 fn sig_of(layers: &[i128]) -> Option<String> {
     let mut toks: Vec<String> = vec![];
     let mut i = 0;
@@ -151,6 +223,14 @@ fn main() {
         return;
     }
     let cases = read_cases(&args[1]);
+    if args.len() > 2 && args[2] == "vec" {
+        let mut o = Out::new();
+        for (id, c) in &cases {
+            o.line(id, &run_vec(c));
+        }
+        o.flush();
+        return;
+    }
     let fam = family();
     let mut o = Out::new();
     for (id, c) in &cases {
